@@ -391,6 +391,16 @@ example : nextResos ⟨85/100, 85/100, 85/100, 85/100⟩ ⟨0, 5, 0, 0⟩ (6/100
   · rw [nextResos_single_donor h _ _ ht]
     cases t <;> first | exact absurd rfl ht | norm_num [rmin, Vec.get]
 
+def demoRun (ops : List (Op Unit)) : World Unit := World.init.run (fun _ _ => none) maxTicks ops
+
+/-- A history after which the hypotheses of `stored_results_current_partial` hold (results stored, flag down) ... -/
+example (r : Rah) : (demoRun [.start r false false, .readRah]).res = some [r.base] ∧
+    (demoRun [.start r false false, .readRah]).stale = false := ⟨rfl, rfl⟩
+
+/-- ... and the K2 shape: a ship assignment after a read keeps the stored results and raises the ghost flag. -/
+example (r : Rah) : (demoRun [.start r false false, .readRah, .setShip (some ())]).res = some [r.base] ∧
+    (demoRun [.start r false false, .readRah, .setShip (some ())]).stale = true := ⟨rfl, rfl⟩
+
 /-- A single-type damage vector. -/
 example : SingleType ⟨0, 0, 7, 0⟩ .kin := ⟨by decide +kernel, by intro t ht; cases t <;> first | rfl | exact absurd rfl ht⟩
 
